@@ -5,6 +5,7 @@
 (*          1 iff something failed, else status 0 and an empty stderr.       *)
 (*  notdir  a root that is not a directory: the other roots' rows intact,    *)
 (*          the bad root named, status 1.                                    *)
+(*  missing a root that does not exist: the same.                            *)
 (*  files   every row present; an unreadable file has empty content-derived  *)
 (*          columns and unchanged metadata; aggregates over readable data    *)
 (*          and over metadata are unaffected.                                *)
@@ -34,6 +35,14 @@ Why(r) ==
         ELSE IF \E d \in reached : \A i \in 1 .. Len(o.mentions) : o.mentions[i] # d THEN "failing-path-not-named"
         ELSE IF reached # {} /\ o.status # 1 THEN "status-" \o ToString(o.status) \o "-after-failure"
         ELSE IF reached = {} /\ (o.status # 0 \/ o.stderr_len # 0) THEN "fault-free-run-not-clean"
+        ELSE "ok"
+  ELSE IF r.kind = "missing" THEN
+     LET visible == { n \in all : Below(w, 5, n) \/ Below(w, 1, n) }
+         got == { IdOf(o.rows[i][1]) : i \in 1 .. Len(o.rows) }
+     IN IF visible \ got # {} THEN "row-outside-the-failing-directory-lost"
+        ELSE IF got \ visible # {} \/ Len(o.rows) # Cardinality(got) THEN "unexpected-row"
+        ELSE IF ~o.probes[1] THEN "failing-path-not-named"
+        ELSE IF o.status # 1 THEN "status-" \o ToString(o.status) \o "-after-failure"
         ELSE "ok"
   ELSE IF r.kind = "notdir" THEN
      LET visible == { n \in all : Below(w, 5, n) \/ Below(w, 1, n) }
